@@ -211,20 +211,23 @@ func (d *Device) handleABSEvent(ie *input.InputEvent) {
 
 		channel := (d.channel + analog.ChannelOffset) % 16
 		channelNeg := (d.channel + analog.ChannelOffsetNeg) % 16
+		// both directions may share one controller (the distance from the centre, whichever way): then there is no other
+		// side to set to zero, the zero would overwrite the value that was just sent
+		oneController := analog.CC == analog.CCNeg && channel == channelNeg
 
 		switch {
 		case canBeNegative && analog.Bidirectional:
 			adjustedValue = math.Abs(value)
 			if value < 0 {
 				d.outputEvents <- midi.ControlChangeEvent(channelNeg, analog.CCNeg, byte(int(float64(127)*adjustedValue)))
-				if !d.ccZeroed[analog.CC] {
+				if !oneController && !d.ccZeroed[analog.CC] {
 					d.outputEvents <- midi.ControlChangeEvent(channel, analog.CC, 0)
 					d.ccZeroed[analog.CC] = true
 				}
 				d.ccZeroed[analog.CCNeg] = false
 			} else {
 				d.outputEvents <- midi.ControlChangeEvent(channel, analog.CC, byte(int(float64(127)*adjustedValue)))
-				if !d.ccZeroed[analog.CCNeg] {
+				if !oneController && !d.ccZeroed[analog.CCNeg] {
 					d.outputEvents <- midi.ControlChangeEvent(channelNeg, analog.CCNeg, 0)
 					d.ccZeroed[analog.CCNeg] = true
 				}
@@ -237,14 +240,14 @@ func (d *Device) handleABSEvent(ie *input.InputEvent) {
 			adjustedValue = math.Abs(value*2 - 1)
 			if value < 0.5 {
 				d.outputEvents <- midi.ControlChangeEvent(channelNeg, analog.CCNeg, byte(int(float64(127)*adjustedValue)))
-				if !d.ccZeroed[analog.CC] {
+				if !oneController && !d.ccZeroed[analog.CC] {
 					d.outputEvents <- midi.ControlChangeEvent(channel, analog.CC, 0)
 					d.ccZeroed[analog.CC] = true
 				}
 				d.ccZeroed[analog.CCNeg] = false
 			} else {
 				d.outputEvents <- midi.ControlChangeEvent(channel, analog.CC, byte(int(float64(127)*adjustedValue)))
-				if !d.ccZeroed[analog.CCNeg] {
+				if !oneController && !d.ccZeroed[analog.CCNeg] {
 					d.outputEvents <- midi.ControlChangeEvent(channelNeg, analog.CCNeg, 0)
 					d.ccZeroed[analog.CCNeg] = true
 				}
